@@ -28,6 +28,17 @@ CLAIMED.update({
             "every fallible in-place operation of the history machine that reports an error leaves the whole pool unchanged (proved for any pool, hence at any point of any history).",
             TB, "DESIGN §7 C09"),
 })
+CLAIMED.update({
+    'C10': ("Rocq proofs of the three swaps on the list model + differential correspondence (incl. huge zero-sized matrices)",
+            "swap_rows/swap_cols on the executable model (contiguous swap_nonoverlapping path with its disjointness precondition, strided ptr::swap loop) exchange exactly the named vectors for every "
+            "pair of usize values, both orders, equal indices included, never UB, IndexOutOfBounds otherwise; element swap on resolved positions. Proving 'no addition overflows' exposed finding F5 "
+            "(fixed in /repo); the old loop is kept in the model and refuted by a witness.",
+            TB + " Permutation (no clone/drop) is proved for transpose and the element swap; for the vector swaps it is observed by the harness ledger, not proved.", "DESIGN §7 C10"),
+    'C14': ("Rocq proof of both overwrite paths on the list model + differential correspondence",
+            "overwrite of the executable model (unchecked sub-slices and clone_from_slice for equal orders; zip with skip/step_by for different orders) is proved to copy exactly the overlapping "
+            "top-left block for every pair of coherent shapes and all four order combinations, leaving the rest of dest, its shape and order unchanged, with every unchecked range inside both buffers.",
+            TB + " Clone counts (each overlap element cloned once, nothing moved out of src) are checked by the harness ledger, not proved.", "DESIGN §7 C14"),
+})
 NOT_APPLICABLE = {}
-for _p in ['C01', 'C02', 'C03', 'C06', 'C07', 'C10', 'C11', 'C12', 'C14', 'C15', 'C16', 'C17', 'C18', 'C19', 'C20']:
+for _p in ['C01', 'C02', 'C03', 'C06', 'C07', 'C11', 'C12', 'C15', 'C16', 'C17', 'C18', 'C19', 'C20']:
     NOT_APPLICABLE[_p] = "not claimed yet: the check for this property is still being built in this round (the technique applies; see DESIGN.md §7)"
